@@ -248,7 +248,8 @@ class kLeastAbsErrors(pathmodel.AbstractPathModelDAG):
             if (self.subpath_constraints_coverage == 1.0 and self.subpath_constraints_coverage_length is None) \
                 or self.subpath_constraints_coverage_length == 1:
                 for constraint in self.subpath_constraints:
-                    self.optimization_options["trusted_edges_for_safety"].update(constraint)
+                    # (only well-formed edges; malformed constraints are reported as ValueError by the base class)
+                    self.optimization_options["trusted_edges_for_safety"].update(edge for edge in constraint if isinstance(edge, tuple))
 
         # Call the constructor of the parent class AbstractPathModelDAG
         super().__init__(
